@@ -352,6 +352,7 @@ def generate(repo):
     for rel, fn, key in [('src/compute/leaf.rs', 'compute_leaf_layout', 'leaf::compute_leaf_layout'),
                          ('src/compute/mod.rs', 'compute_root_layout', 'compute::compute_root_layout'),
                          ('src/compute/mod.rs', 'compute_hidden_layout', 'compute::compute_hidden_layout'),
+                         ('src/compute/mod.rs', 'compute_cached_layout', 'compute::compute_cached_layout'),
                          ('src/tree/taffy_tree.rs', 'compute_child_layout', 'taffy_tree::compute_child_layout'),
                          ('src/tree/traits.rs', 'perform_child_layout', 'traits::perform_child_layout')]:
         fps[key] = norm_tokens(find_fn(read(repo, rel), fn)[1])
